@@ -382,6 +382,26 @@ def debugger_suite(ctx, n_random, hist_len, exhaustive_len, big=False):
     for c in [k_ for k_ in keep if k_['defs'] is None]:
         jobs.append((c, ['t1'] + ['e', 'k', 'e', 'q'] * 12 + ['v']))
         jobs.append((c, ['s', 'k'] * 3 + ['s', 'q'] * 40 + ['v']))
+    # toggling the line one is stopped on: step to the j-th stop, enable (or disable and re-enable) exactly that line, leave
+    # stepping mode and resume — the next time the path comes by, it stops there
+    for c in keep:
+        for j in range(1, 7):
+            pre = ['t1'] + ['e'] * j
+            exp_ = expected_history(c['prog'], c['path'], pre)
+            if not exp_ or exp_[-1] is None or exp_[-1]['cur'] == 'none' or exp_[-1]['done'] == '1':
+                break
+            cur = exp_[-1]['cur']
+            jobs.append((c, pre + ['b:' + cur, 't0'] + ['e'] * 5 + ['v']))
+            if j % 2 == 0:
+                jobs.append((c, pre + ['b:' + cur, 'd:' + cur, 'b:' + cur, 't0'] + ['e'] * 4))
+    # lines that own SEVERAL sites: enabled, then cleared / reset / disabled, then run — every one of their sites must be passive
+    # again (and armed while enabled)
+    for c in keep:
+        multi = [bp for bp in c['prog'].avail if len(c['prog'].pb[bp]) >= 2]
+        for bp in multi[:3]:
+            for undo in ('c', 'r', 'd:' + bp):
+                jobs.append((c, ['b:' + bp, undo] + ['e'] * 6 + ['v']))
+            jobs.append((c, ['b:' + bp] + ['e'] * 8 + ['c', 'e', 'e']))
     # every available line enabled at once, then run: a stale or misplaced site shows up as a changed computation
     for c in keep:
         if c['defs'] is not None and len(c.get('files', {})) > 1:
@@ -561,6 +581,23 @@ def literal_guard_oracle(ctx):
             ctx.stage_broken('GEN stage: verdict differs on a literal', 'impl %s model %s' % (fields(x).get('ok'), fields(y).get('ok')), {'source': src})
         if v >= INT_MAX - 2:
             ctx.nontrivial(src)
+    # the literal in a SUPPLIED file bearing the hidden standard file's name (a project prelude repeating the built-in operators):
+    # it is a source file like any other
+    from checks.frontprops import std_macro_text
+    stdt = std_macro_text()
+    sreqs, smeta = [], []
+    for lit in lits:
+        for body in (b'PROGRAM f IN a DO x0 := %s END\n', b'PROGRAM f IN a DO x0 := a + %s END\n', b'x9 := %s ;\n'):
+            fl = {b'm': b'x1 := RUN f WITH 1 END\n' if body.startswith(b'PROGRAM') else b'x1 := 1\n', b'__standards__': stdt + b'\n' + body % lit.encode()}
+            sreqs.append('GEN ' + files_req(b'm', fl))
+            smeta.append((lit, fl))
+    for (lit, fl), o in zip(smeta, impl(ctx, sreqs)):
+        ctx.cov['evaluations'] += 1
+        desc = {k.decode(): v.decode('latin1') for k, v in fl.items()}
+        if is_crash(o):
+            ctx.violation('literal-ub', 'compiling a source with the literal %s in a supplied standard file crashed: %s' % (lit, o[:200]), desc)
+        elif (fields(o)['ok'] == '1') == (int(lit) >= INT_MAX):
+            ctx.violation('literal-guard', 'literal %s in a supplied file named like the standard file: %s' % (lit, 'accepted' if fields(o)['ok'] == '1' else 'rejected'), desc)
     # the same sources parsed ONCE and generated three times from the same syntax tree: every generation gives the verdict,
     # the errors and the code of compile()
     n_ = impl(ctx, ['GENN ' + files_req(b'm', {b'm': c[0].encode()}) + ' 3' for c in cases])
